@@ -531,6 +531,103 @@ func suiteSession(h *H) {
 			return nil
 		})
 	}
+	// ---- an upload into a subdirectory of a daemon module that has to replace a symbolic link by another one (C11), with
+	// a directory of the subdirectory's name in the daemon's working directory: nothing happens there (C05)
+	{
+		sl := filepath.Join(base, "subdirlink")
+		modDir := filepath.Join(sl, "mod")
+		os.MkdirAll(filepath.Join(modDir, "sub"), 0o755)
+		os.Symlink("old-target", filepath.Join(modDir, "sub", "ln"))
+		os.MkdirAll(filepath.Join(sl, "src"), 0o755)
+		os.Symlink("new-target", filepath.Join(sl, "src", "ln"))
+		os.WriteFile(filepath.Join(sl, "src", "f"), []byte("f"), 0o644)
+		cwd, _ := os.Getwd()
+		decoy := filepath.Join(sl, "cwd", "sub")
+		os.MkdirAll(decoy, 0o755)
+		decoyT := time.Unix(oldT+99, 0)
+		os.Chtimes(decoy, decoyT, decoyT)
+		os.Chdir(filepath.Join(sl, "cwd"))
+		out, v := "ok", ""
+		if d, err := startDaemon([]rsyncd.Module{{Name: "w", Path: modDir, Writable: true}}); err == nil {
+			_, rerr := maincmd.Main(context.Background(), quietEnv(), []string{"rsync", "-a", filepath.Join(sl, "src") + "/", d.url("w", "sub/")}, nil)
+			d.stop()
+			if rerr != nil {
+				out = "err"
+				v = "FAIL[C11] an upload into module/sub/ that replaces a symbolic link by another one failed: " + strings.SplitN(rerr.Error(), "\n", 2)[0]
+			} else if tg, _ := os.Readlink(filepath.Join(modDir, "sub", "ln")); tg != "new-target" {
+				v = fmt.Sprintf("FAIL[C11] after an upload into module/sub/ the link points to %q, the source's to \"new-target\"", tg)
+			}
+			if fi, serr := os.Stat(decoy); serr != nil || !fi.ModTime().Equal(decoyT) {
+				v = "FAIL[C05] an upload into module/sub/ created and removed entries in the directory sub of the daemon's working directory, outside the module"
+				if rerr != nil {
+					v += " || FAIL[C11]"
+				}
+			}
+		}
+		os.Chdir(cwd)
+		h.emit(fmt.Sprintf("!session-subdir-link seed=%d", h.seed), out, v, true)
+		h.stat("session.subdir-link")
+	}
+	// ---- modification times beyond January 2038 do not fit the 32-bit field of protocol 27; however the sender squeezes
+	// them in, a later change of the file at equal size with another such time is still picked up (C12)
+	for _, arr := range []byte("LPU") {
+		caseNo++
+		dir := filepath.Join(base, fmt.Sprintf("latemtime%d", caseNo))
+		srcRoot, dstRoot := filepath.Join(dir, "src"), filepath.Join(dir, "dst")
+		os.MkdirAll(srcRoot, 0o755)
+		os.MkdirAll(dstRoot, 0o755)
+		fn := filepath.Join(srcRoot, "late.txt")
+		t1, t2 := time.Date(2040, 5, 1, 12, 0, 0, 0, time.UTC), time.Date(2041, 6, 2, 13, 0, 0, 0, time.UTC)
+		os.WriteFile(fn, []byte("hello"), 0o644)
+		os.Chtimes(fn, t1, t1)
+		out1 := runArr(arr, []string{"-a"}, srcRoot, true, dstRoot)
+		os.WriteFile(fn, []byte("moon!"), 0o644)
+		os.Chtimes(fn, t2, t2)
+		out2 := runArr(arr, []string{"-a"}, srcRoot, true, dstRoot)
+		v := ""
+		if b, _ := os.ReadFile(filepath.Join(dstRoot, "late.txt")); out1 == "ok" && out2 == "ok" && string(b) != "moon!" {
+			v = fmt.Sprintf("FAIL[C12] a file changed at equal size from one modification time after 2038 to another was not transferred again (destination holds %q)", b)
+		}
+		h.emit(fmt.Sprintf("!session-late-mtime seed=%d arr=%c", h.seed, arr), strings.SplitN(out1, ":", 2)[0]+"/"+strings.SplitN(out2, ":", 2)[0], v, true)
+		h.stat("session.late-mtime")
+		os.RemoveAll(dir)
+	}
+	// ---- rules with a slash name the end of the path, however the source is spelt on the command line (C13)
+	for _, slash := range []bool{true, false} {
+		for _, arr := range []byte("LPU") {
+			caseNo++
+			dir := filepath.Join(base, fmt.Sprintf("slashrule%d", caseNo))
+			srcRoot, dstRoot := filepath.Join(dir, "src"), filepath.Join(dir, "dst")
+			os.MkdirAll(filepath.Join(srcRoot, "sub"), 0o755)
+			os.MkdirAll(filepath.Join(srcRoot, "other", "sub"), 0o755)
+			os.MkdirAll(dstRoot, 0o755)
+			for _, n := range []string{"sub/f", "sub/g", "other/sub/f", "f", "xsub"} {
+				os.WriteFile(filepath.Join(srcRoot, n), []byte(n), 0o644)
+			}
+			out := runArr(arr, []string{"-a", "--exclude=sub/f"}, srcRoot, slash, dstRoot)
+			pre := ""
+			if !slash {
+				pre = "src/"
+			}
+			v := ""
+			if out != "ok" {
+				v = "FAIL[C13] a transfer with --exclude=sub/f failed: " + strings.SplitN(out, "\n", 2)[0]
+			}
+			for _, n := range []string{"sub/f", "other/sub/f"} {
+				if _, err := os.Lstat(filepath.Join(dstRoot, pre+n)); err == nil && v == "" {
+					v = fmt.Sprintf("FAIL[C13] --exclude=sub/f: %q was transferred (source spelt %s a trailing slash): the rule's effect depends on how the source is written", pre+n, map[bool]string{true: "with", false: "without"}[slash])
+				}
+			}
+			for _, n := range []string{"sub/g", "f", "xsub"} {
+				if _, err := os.Lstat(filepath.Join(dstRoot, pre+n)); err != nil && v == "" {
+					v = fmt.Sprintf("FAIL[C13] --exclude=sub/f: %q is missing, the rule does not name it", pre+n)
+				}
+			}
+			h.emit(fmt.Sprintf("!session-slashrule seed=%d arr=%c slash=%v", h.seed, arr, slash), strings.SplitN(out, ":", 2)[0], v, true)
+			h.stat("session.slashrule")
+			os.RemoveAll(dir)
+		}
+	}
 	// ---- the command line as a user's shell runs it: local copies with the process restrictions (landlock) the
 	// implementation applies to itself when the kernel offers them. A run that reports success has copied the source.
 	if self, err := os.Executable(); err == nil {
